@@ -50,10 +50,12 @@ def ra_search(cfg, res):
 BODY = ("From CB Require Import SeqlockInv GenCyc SeqlockRA SeqlockMono SeqlockFresh.\nFrom CB.Properties Require Import C03.\n"
         "Theorem current_cfg_safe : safe_cfg current_cfg = true.\nProof. vm_compute. reflexivity. Qed.\n"
         "Theorem current_retries_positive : (0 < c_retries current_cfg)%N.\nProof. vm_compute. reflexivity. Qed.\n"
-        "Definition C03_monotone_for_the_running_code := fun ts m o => C03_monotone_RA_window current_cfg ts m o current_cfg_safe.\n"
-        "Definition C03_fresh_for_the_running_code := fun ts m o j r q e => C03_fresh_exact current_cfg ts m o j r q e current_cfg_safe current_retries_positive.\n"
-        "Check C03_monotone_for_the_running_code : forall ts m o, Forall real_token ts -> m_run (m_init current_cfg) ts = (m, o) ->\n"
-        "  run_windows (m_init current_cfg) ts -> sorted_from (fun _ => 0%nat) o.\n"
+        "(* publication order: the instance whose records are pairwise different *)\n"
+        "Theorem C03_monotone_for_the_running_code : forall ts m o, Forall real_token ts -> @m_run std_rec (m_init current_cfg) ts = (m, o) ->\n"
+        "  @run_windows std_rec (m_init current_cfg) ts -> sorted_from (fun _ => 0%nat) o.\n"
+        "Proof. intros ts m o. apply (C03_monotone_RA_window current_cfg ts m o current_cfg_safe). Qed.\n"
+        "(* freshness: every record function *)\n"
+        "Definition C03_fresh_for_the_running_code := fun (RF : RecFun) ts m o j r q e => @C03_fresh_exact RF current_cfg ts m o j r q e current_cfg_safe current_retries_positive.\n"
         "Print Assumptions C03_monotone_for_the_running_code.\nPrint Assumptions C03_fresh_for_the_running_code.\n")
 
 
